@@ -336,8 +336,11 @@ def ident(n, nchan, extra):
     return a
 
 
-def incoh_signal(case):
-    a = ident(case["n"], case["nchan"], incoh_extra(case))
+VARIANT_OFFSET = 100        # time indices of data variant v start at 100 * v
+
+
+def incoh_signal(case, variant=0):
+    a = ident(case["n"], case["nchan"], incoh_extra(case)) + variant * VARIANT_OFFSET * 10000.0
     dt = np.dtype(case["dtype"])
     if dt.kind == "c":
         data = (a + 1j * (a + 0.5)).astype(dt)
@@ -346,9 +349,11 @@ def incoh_signal(case):
     return build_signal(case, data), data
 
 
-def decode_ident(out, nchan):
+def decode_ident(out, nchan, variant=0):
     """identifier samples -> (src[chan][k] time indices, everything else consistent?)"""
     d = np.asarray(out)
+    if variant and d.size:
+        d = d - np.asarray(variant * VARIANT_OFFSET * 10000.0 * (1 + 1j if d.dtype.kind == "c" else 1)).astype(d.dtype)
     L = d.shape[0]
     if d.ndim < 2 or d.shape[1] != nchan:
         return [[] for _ in range(nchan)], False
@@ -373,18 +378,22 @@ def exact_delays(z, dmx, ref):
     return [K * dmx * (1 / (f * f) - 1 / (rx * rx)) * rate for f in common.hz(z.channel_freqs)]
 
 
-def incoh_event(case, z, DM, dmx, refp, note=""):
-    """one call of incoherent_dedispersion(z, DM[, ref_freq]) on the given objects -> event"""
+def incoh_event(case, z, DM, dmx, refp, note="", pre=None, variant=0):
+    """one call of incoherent_dedispersion(z, DM[, ref_freq]) on the given objects -> event;
+    pre = (result signal or None, computed samples, error) when the call was already made"""
     kw = {}
     ref = z.center_freq
     if refp is not None:
         ref = kw["ref_freq"] = Q(refp)
     err, y, out = False, None, None
-    try:
-        y = pb.incoherent_dedispersion(z, DM, **kw)
-        out = compute(y)
-    except Exception as ex:      # noqa
-        err, y = type(ex).__name__, None
+    if pre is not None:
+        y, out, err = pre
+    else:
+        try:
+            y = pb.incoherent_dedispersion(z, DM, **kw)
+            out = compute(y)
+        except Exception as ex:      # noqa
+            err, y = type(ex).__name__, None
     e = {"ev": "incoh", "cls": case["cls"], "len": case["n"], "dm": rat(dmx),
          "fq": [rat(x) for x in common.hz(z.channel_freqs)], "fref": rat(common.hz(ref)),
          "rate": rat(common.hz(z.sample_rate)), "err": bool(err), "outlen": 0 if err else int(out.shape[0]),
@@ -397,7 +406,7 @@ def incoh_event(case, z, DM, dmx, refp, note=""):
                      float(dmx), refp, err or "len %d" % out.shape[0])}
     e.update(start_fields(z, y))
     if not err:
-        e["src"], e["decoded"] = decode_ident(out, case["nchan"])
+        e["src"], e["decoded"] = decode_ident(out, case["nchan"], variant)
         if case.get("dask") and not isinstance(y.data, da.Array):
             e["decoded"] = False
     return e
@@ -683,10 +692,10 @@ def gen_bb_case(rnd, kind, Ns, span=None, decades=False, nchans=(1, 2, 3, 4)):
     raise RuntimeError("no baseband case found")
 
 
-def crop_fields(case, z, y, ref, refis, dmx):
+def crop_fields(case, z, y, ref, refis, dmx, o=None):
     e = {"dm": rat(dmx), "N": case["N"], "rate": rat(common.hz(z.sample_rate)),
          "dt": rat(Fraction(float(z.dt.to_value(u.s)))), "top": rat(common.hz(z.max_freq)),
-         "bot": rat(common.hz(z.min_freq)), "refis": refis, **ref_fields(ref), "finite": all_finite(compute(y)),
+         "bot": rat(common.hz(z.min_freq)), "refis": refis, **ref_fields(ref), "finite": all_finite(compute(y) if o is None else o),
          "fq": [rat(x) for x in common.hz(z.channel_freqs)],
          "outlen": int(y.shape[0]), "zin": meta_rec(z), "zout": meta_rec(y), "xcheck": bool(case.get("xcheck"))}
     e.update(start_fields(z, y))
@@ -793,14 +802,17 @@ def tone_signal(case):
     return bb_signal(case, data), data, ks
 
 
-def tone_event(case, z, data, ks, DM, dmx, note=""):
+def tone_event(case, z, data, ks, DM, dmx, note="", pre=None):
     N = case["N"]
     rows = rows_of(case)
     nt = len(rows) // case["nchan"]
     ref, kw, refis = ref_of(case, z)
-    y = pb.coherent_dedispersion(z, DM, **kw)
-    o = compute(y)
-    e = crop_fields(case, z, y, ref, refis, dmx)
+    if pre is not None:
+        y, o = pre
+    else:
+        y = pb.coherent_dedispersion(z, DM, **kw)
+        o = compute(y)
+    e = crop_fields(case, z, y, ref, refis, dmx, o)
     lab = e["fq"]
     x3 = np.asarray(data).reshape(N, case["nchan"], nt)
     o3 = o.reshape(o.shape[0], case["nchan"], nt)
@@ -1131,7 +1143,133 @@ def run_lawarr_case(case):
     return evs
 
 
-RUNNERS = {"lawarr": run_lawarr_case, "lawseq": run_lawseq_case, "incohseq": run_incohseq_case, "chirpseq": run_chirpseq_case,
+# ---- several lazy Dask results of one geometry evaluated in ONE graph
+def joint_event(lazy_a, lazy_b, twin_a, twin_b, scale, what):
+    """two lazy results combined lazily -- concatenated along time, and subtracted when their lengths agree --
+    and computed once, against the same combination of the NumPy twins"""
+    same = lazy_a.shape == twin_a.shape and lazy_b.shape == twin_b.shape
+    md = 0.0
+    if same:
+        c = np.asarray(da.concatenate([lazy_a, lazy_b], axis=0).compute(scheduler="synchronous"))
+        t = np.concatenate([twin_a, twin_b], axis=0)
+        md = float(np.max(np.abs(c - t))) if t.size else 0.0
+        if lazy_a.shape == lazy_b.shape and twin_a.size:
+            d = np.asarray((lazy_a - lazy_b).compute(scheduler="synchronous"))
+            md = max(md, float(np.max(np.abs(d - (twin_a - twin_b)))))
+        if not np.isfinite(md):
+            md = 1e300
+    return {"ev": "joint", "samelen": bool(same), "maxdiff": rat(md), "scale": rat(scale), "_cost": 0.01,
+            "_desc": "lazy concatenate / (a - b) of two Dask results of one geometry vs their NumPy twins, max deviation %r: %s" % (md, what)}
+
+
+def gen_incohjoint_case(rnd, i):
+    """a Dask-backed incoherent case with a non-empty result + a second usable DM"""
+    for _ in range(100):
+        base = gen_incoh_case(rnd, i)
+        if base["n"] < 3:
+            continue
+        base["dask"] = True
+        for k in ("fchunks", "tchunk"):
+            base.pop(k, None)
+        base.update(pick_chunks(rnd, base["n"], base["nchan"]))
+        tw = dict(base, dask=False)
+        z, _ = incoh_signal(tw)
+        try:
+            if len(pb.incoherent_dedispersion(z, _dm(tw)[0], **({"ref_freq": Q(tw["ref"])} if tw.get("ref") is not None else {}))) == 0:
+                continue
+        except Exception:       # noqa
+            continue
+        ref = Q(base["ref"]) if base.get("ref") is not None else z.center_freq
+
+        def ok(v):
+            dx = exact_delays(z, Fraction(float(v)), ref)
+            return max(abs(d) for d in dx) < 1e8 and \
+                not any(abs(abs(d - math.floor(d)) - Fraction(1, 2)) < Fraction(1, 1000) for d in dx)
+        steps = gen_dm_steps(rnd, base["dm"], ok, 3)
+        return {"kind": "incohjoint", "base": base, "dm2": steps[1][1], "nvar": rnd.choice([2, 2, 3])}
+    raise RuntimeError("no joint incoherent case found")
+
+
+def run_incohjoint_case(case):
+    """signals of identical shape / chunking / dtype / band but DIFFERENT data dedispersed by the same DM, and
+    the first one also by another DM; all lazy results computed in one dask.compute and combined lazily;
+    every result is judged like a single call, the NumPy twins too"""
+    import dask
+    base = case["base"]
+    tw = dict(base, dask=False)
+    DM1, dmx1 = _dm(base)
+    DM2 = pb.DM(float(case["dm2"]))
+    kw = {"ref_freq": Q(base["ref"])} if base.get("ref") is not None else {}
+    jobs = [(v, DM1, dmx1) for v in range(case["nvar"])] + [(0, DM2, dm_exact(DM2))]
+    sigs = {v: incoh_signal(base, v)[0] for v in range(case["nvar"])}
+    lazy = []
+    for v, DM, dmx in jobs:
+        try:
+            lazy.append(pb.incoherent_dedispersion(sigs[v], DM, **kw))
+        except Exception as ex:      # noqa
+            lazy.append(type(ex).__name__)
+    good = [y for y in lazy if not isinstance(y, str)]
+    outs = iter(dask.compute(*[y.data for y in good], scheduler="synchronous"))
+    evs, twins = [], []
+    for (v, DM, dmx), y in zip(jobs, lazy):
+        pre = (None, None, y) if isinstance(y, str) else (y, np.asarray(next(outs)), False)
+        evs.append(incoh_event(base, sigs[v], DM, dmx, base.get("ref"),
+                               "one of %d Dask results computed together (data variant %d): " % (len(jobs), v), pre, v))
+        zt, _ = incoh_signal(tw, v)
+        e = incoh_event(tw, zt, DM, dmx, tw.get("ref"), "NumPy twin (data variant %d): " % v, None, v)
+        evs.append(e)
+        try:
+            twins.append(compute(pb.incoherent_dedispersion(zt, DM, **kw)))
+        except Exception:        # noqa
+            twins.append(None)
+    for a, b in ((0, 1), (0, len(jobs) - 1)):
+        if not isinstance(lazy[a], str) and not isinstance(lazy[b], str) and twins[a] is not None and twins[b] is not None:
+            evs.append(joint_event(lazy[a].data, lazy[b].data, twins[a], twins[b], 0.0,
+                                   "incoherent_dedispersion results %d and %d of %s" % (a, b, evs[0]["_desc"][:200])))
+    return evs
+
+
+def gen_tonejoint_case(rnd, Ns):
+    for _ in range(100):
+        base = gen_bb_case(rnd, "tone", Ns, nchans=(1, 2, 3))
+        base["dask"] = True
+        z = bb_signal(base, np.zeros(bb_shape(base), base["dtype"]))
+        ref, _, refis = ref_of(base, z)
+
+        def ok(v):
+            d = edge_delays(z, Fraction(float(v)), ref, refis)
+            return not any(x != 0 and abs(x - round(x)) < Fraction(1, 1000) for x in d)
+        steps = gen_dm_steps(rnd, float(_dm(base)[1]), ok, 3)
+        return {"kind": "tonejoint", "base": base, "dm2": steps[1][1]}
+
+
+def run_tonejoint_case(case):
+    """two Dask-backed signals of one geometry with different tones, same DM, + the first with another DM:
+    computed in one dask.compute, each judged as a single call; lazy (a - b) against the NumPy twins"""
+    import dask
+    base = case["base"]
+    DM1, dmx1 = _dm(base)
+    DM2 = pb.DM(float(case["dm2"]))
+    jobs = [(0, DM1, dmx1), (1, DM1, dmx1), (0, DM2, dm_exact(DM2))]
+    sig = {v: tone_signal(dict(base, seed=base["seed"] + v)) for v in (0, 1)}
+    _, kw, _ = ref_of(base, sig[0][0])
+    lazy = [pb.coherent_dedispersion(sig[v][0], DM, **kw) for v, DM, _ in jobs]
+    outs = dask.compute(*[y.data for y in lazy], scheduler="synchronous")
+    evs, twins = [], []
+    for (v, DM, dmx), y, o in zip(jobs, lazy, outs):
+        z, data, ks = sig[v]
+        e, _, _, _ = tone_event(base, z, data, ks, DM, dmx, "one of 3 Dask results computed together (tones %d): " % v,
+                                (y, np.asarray(o)))
+        evs.append(e)
+        zt, dt_, _ = tone_signal(dict(base, seed=base["seed"] + v, dask=False))
+        twins.append(compute(pb.coherent_dedispersion(zt, DM, **kw)))
+    for a, b in ((0, 1), (0, 2)):
+        evs.append(joint_event(lazy[a].data, lazy[b].data, twins[a], twins[b], 5.0,
+                               "coherent_dedispersion results %d and %d: %s" % (a, b, describe(base))))
+    return evs
+
+
+RUNNERS = {"incohjoint": run_incohjoint_case, "tonejoint": run_tonejoint_case, "lawarr": run_lawarr_case, "lawseq": run_lawseq_case, "incohseq": run_incohseq_case, "chirpseq": run_chirpseq_case,
            "toneseq": run_toneseq_case, "law": run_law_case, "incoh": run_incoh_case, "chirpfn": run_chirpfn_case, "chirpsig": run_chirpsig_case,
            "crop": run_crop_case, "tone": run_tone_case, "cohdd": run_cohdd_case, "roundtrip": run_roundtrip_case}
 
